@@ -802,12 +802,26 @@ def run(ctx):
     for c, r in zip(lok, lok_res):
         bad = judge_loky(c, r)
         if bad:
-            oracle_fail.append((bad, c, r, None))
+            r2 = run_impl_cases([c])[0]
+            bad2 = judge_loky(c, r2)
+            if bad2:
+                oracle_fail.append((bad2, c, r2, None))
+            else:
+                ctx.note("inconclusive real-backend run (failed once, passed when repeated): " + bad[:200])
     addr_reuse = 0
+    inconclusive = []
     for c, r in zip(loops, loop_res):
         bad = judge_loky_loop(c, r)
         if bad:
-            oracle_fail.append((bad, c, {"rows": r.get("rows", [])[:3]}, None))
+            # a sampled real-backend run: retried once in a fresh interpreter; a failure that does not repeat is
+            # reported as inconclusive coverage, not as a violation (BUILDER_GUIDE: never decide on wall-clock luck)
+            r2 = run_impl_cases([c])[0]
+            bad2 = judge_loky_loop(c, r2)
+            if bad2:
+                oracle_fail.append((bad2, c, {"rows": r2.get("rows", [])[:3], "first_attempt": bad}, None))
+            else:
+                inconclusive.append({"case": c, "first_attempt": bad})
+                ctx.note("inconclusive real-backend run (failed once, passed when repeated): " + bad[:200])
         addr_reuse += r.get("addresses_reused", 0)
     route_dist = {}
     for c, r in zip(routes, route_res):
@@ -873,6 +887,7 @@ def run(ctx):
         "evaluations": len(arr) + len(red) + len(lok) + len(kc) + len(routes) + 75 * len(mat) + sum(c["iterations"] for c in loops),
         "load_dispatch_combinations": 75 * len(mat),
         "reducer_routes": route_dist,
+        "inconclusive_real_backend_runs": inconclusive,
         "managed_parallel_loops": {"cases": len(loops), "calls": sum(c["iterations"] for c in loops),
                                    "fresh_arrays_allocated_at_a_dead_arrays_address": addr_reuse},
         "distinct_nontrivial": len(nontrivial),
